@@ -31,6 +31,29 @@ def ctl_sweep(job):
         C["base_histories"] = C.get("base_histories", 0) + 1
         k = 0
         for mode in job.get("modes", ["pause", "cancel"]):
+            if mode == "pause_resume_pause":
+                # three requests in a row while actions are in flight: pause, resume before anything reports (the workflow
+                # is then `resuming` with actions in flight), pause again
+                for pos in range(1, len(base) + 1):
+                    for variant in range(4):
+                        k += 1
+                        if only and k != only[1]:
+                            continue
+                        run = explore.make_run(case, workloads.monitors(job.get("flags")), model=m)
+                        explore.play_script(run, base[:pos])
+                        if not run.inflight:
+                            continue
+                        run.request(["pausing", "paused"][variant % 2])
+                        run.request(["resuming", "running"][variant // 2])
+                        run.request(["pausing", "paused"][(variant + 1) % 2])
+                        C["insertion_points"] = C.get("insertion_points", 0) + 1
+                        C["pause_resume_pause_runs"] = C.get("pause_resume_pause_runs", 0) + 1
+                        explore.run_free(run, explore.Policy(pseed=pseed, lazy_pct=job.get("lazy", 30)), start=False)
+                        run.finish()
+                        out["evaluations"] += 1
+                        workloads.collect(out, job, run, m, (seed, k), nontriv_fn,
+                                          extra=dict(insert=dict(mode=mode, pos=pos, variant=variant)))
+                continue
             if mode == "pause_then_cancel":
                 # two different requests in one history: pause at every position, then cancel after 0, 1 or 2 further
                 # reports (a with-items task may by then rest `paused` between items while other actions still run)
